@@ -90,9 +90,14 @@ def get_total_usages(req):
     sum/total of usages.
     Return 404 Not Found if the wanted microversion does not match.
     """
-    project_id = req.GET.get('project_id')
-    user_id = req.GET.get('user_id')
-    consumer_type = req.GET.get('consumer_type')
+    try:
+        project_id = req.GET.get('project_id')
+        user_id = req.GET.get('user_id')
+        consumer_type = req.GET.get('consumer_type')
+    except UnicodeDecodeError:
+        # Undecodable query string: validate_query_params() below turns
+        # this into a 400 (after the policy check).
+        project_id = user_id = consumer_type = None
 
     context = req.environ['placement.context']
     context.can(
